@@ -21,7 +21,7 @@ def load_known():
                 continue
             if line.startswith("open:"):
                 body = line[len("open:"):].strip()
-                head, _, what = body.partition("::")
+                head, _, what = body.partition(" :: ")
                 f = dict(x.split("=", 1) for x in head.split() if "=" in x and not x.startswith("key="))
                 k = head.split("key=", 1)[1].strip() if "key=" in head else ""
                 out.append({"status": "open", "property": f.get("property"), "key": k, "what": what.strip()})
